@@ -111,9 +111,62 @@ func leafFor(pk keys.DHPublicKey) *certs.Certificate {
 	return c
 }
 
+// conc: g grants for (u,k), then n simultaneous logins; logs the number of successes per batch.
+func conc(out string, rounds int, seed int) {
+	w := rec.Must(out)
+	defer w.Close()
+	ks := authkeys.NewSyncAuthKeySet()
+	srv, err := hopserver.NewHopServerExt(nil, &config.ServerConfig{EnableAuthgrants: true}, ks)
+	if err != nil {
+		panic(err)
+	}
+	srv.SetFSystem(fstest.MapFS{})
+	for r := 0; r < rounds; r++ {
+		u := []string{"u1", "u2"}[r%2]
+		kp := keys.GenerateNewX25519KeyPair()
+		g := []int{1, 1, 2, 0, 1, 3}[(r+seed)%6]
+		n := []int{2, 4, 3, 4, 8, 4}[(r/6+seed)%6]
+		for i := 0; i < g; i++ {
+			in := &authgrants.Intent{GrantType: authgrants.Shell, StartTime: time.Now(), ExpTime: time.Now().Add(time.Hour),
+				TargetUsername: u, DelegateCert: *leafFor(kp.Public)}
+			if err := srv.AddAuthGrant(in); err != nil {
+				panic(err)
+			}
+		}
+		start := make(chan struct{})
+		res := make(chan bool, n)
+		for i := 0; i < n; i++ {
+			go func() {
+				<-start
+				ok := false
+				if err := srv.AuthorizeKey(u, kp.Public); err == nil {
+					ok = true
+				} else if _, err := srv.AuthorizeKeyAuthGrant(u, kp.Public); err == nil {
+					ok = true
+				}
+				res <- ok
+			}()
+		}
+		close(start)
+		okc := 0
+		for i := 0; i < n; i++ {
+			if <-res {
+				okc++
+			}
+		}
+		w.Ev("batch", "u", u, "g", g, "n", n, "ok", okc)
+	}
+}
+
 func main() {
 	logrus.SetOutput(io.Discard)
 	thunks.SetUpTest()
+	if os.Args[1] == "conc" {
+		rounds, _ := strconv.Atoi(os.Args[3])
+		seed, _ := strconv.Atoi(os.Args[4])
+		conc(os.Args[2], rounds, seed)
+		return
+	}
 	in, out := os.Args[1], os.Args[2]
 	enabled := os.Args[3] == "1"
 	seed, _ := strconv.Atoi(os.Args[4])
